@@ -44,7 +44,10 @@ OPS = {
 }
 
 
-def make(plugin, method, privpw, engine, ctx, size, name=b"privuser"):
+CTX_ENGINE = b"\x80\x00\x1f\x88\x04engine-behind-a-proxy"
+
+
+def make(plugin, method, privpw, engine, ctx, size, name=b"privuser", ctx_engine=None):
     from puresnmp.credentials import V3, Auth, Priv
 
     authpw = b"authentication-password"
@@ -52,7 +55,8 @@ def make(plugin, method, privpw, engine, ctx, size, name=b"privuser"):
     creds = V3(name.decode(), Auth(authpw, method), Priv(privpw, plugin))
     db = {OID: ("str", bytes((i * 7 + 3) % 256 for i in range(size))), OID2: ("str", b"old")}
     ag = ragent.V3Agent(db, [user], engine_id=engine, clock=lambda: CLOCK.now)
-    client, sender = world.make_client(creds, ag.handle, context_name=ctx)
+    kw = {"engine_id": ctx_engine} if ctx_engine else {}
+    client, sender = world.make_client(creds, ag.handle, context_name=ctx, **kw)
     return client, sender, ag, user, db
 
 
@@ -69,7 +73,8 @@ def run_case(case, fresh_clock=True):
     plugin, method, engine = case["plugin"], case["method"], ENGINES[case["engine"]]
     privpw = PRIVPW[case["privpw"]]
     ctx = CTX if case["ctx"] else b""
-    client, sender, ag, user, db = make(plugin, method, privpw, engine, ctx, case["size"])
+    ctx_engine = CTX_ENGINE if case.get("ctxengine") else None
+    client, sender, ag, user, db = make(plugin, method, privpw, engine, ctx, case["size"], ctx_engine=ctx_engine)
     # the agent's clock may tick between reading a request and writing the
     # response: responses then carry another engine time than the request
     ag.time_skew = case.get("skew", 0)
@@ -111,7 +116,7 @@ def run_case(case, fresh_clock=True):
             # (a) plaintext = the intended scoped PDU
             clear = e["decrypted"]
             sc = m["scoped"]
-            if sc["context_engine_id"] != engine or sc["context_name"] != ctx:
+            if sc["context_engine_id"] != (ctx_engine or engine) or sc["context_name"] != ctx:
                 bad("wrong-context-in-plaintext", got=(sc["context_engine_id"], sc["context_name"]))
             pad = e.get("padding", b"")
             if plugin != "vblock" and pad:
@@ -188,6 +193,9 @@ def plan(tier):
                             cases.append(dict(plugin=plugin, method=method, privpw=pp, engine=eng, ctx=ctx, size=size, ops=["get", "set", "get"], advance=5, skew=(size + pp) % 3))
                         cases.append(dict(plugin=plugin, method=method, privpw=pp, engine=eng, ctx=ctx, size=20, ops=["getnext", "bulkget", "walk"], advance=86400, skew=1))
                         cases.append(dict(plugin=plugin, method=method, privpw=pp, engine=eng, ctx=ctx, size=20, ops=["set", "get"], advance=0))
+                        # an explicit context engine id (a context behind a
+                        # proxy): keys stay localised to the agent's engine
+                        cases.append(dict(plugin=plugin, method=method, privpw=pp, engine=eng, ctx=ctx, size=20, ops=["get", "set", "getnext"], advance=3, ctxengine=1))
     return cases
 
 
